@@ -75,121 +75,112 @@ def s1_exactly_once(prog):
     if f is None:
         r.viol('S1', 'missing-run', '-', 'Stage::run not found')
         return r
-    body = f.body
     key = 'Stage::run for (&mut T, U)'
     tail = imp['self']['e'][1]['name']
-    # the has_run.0 switch
-    sw = None
-    for b in range(body.n):
-        t = body.term(b)
-        if t['k'] == 'switch' and t['discr_ty'].get('name') == 'bool':
-            nm = receiver_name(prog, body, t['discr'])
-            if nm and nm.startswith('has_run') and nm.endswith('.0'):
-                ft = t['targets'][t['values'].index(0)] if 0 in t['values'] else None
-                sw = (b, t['otherwise'], ft)
-    if sw is None:
-        r.viol('S1', key + '/no-has-run-test', f.loc(), 'Stage::run does not branch on has_run.0: a task started early would run twice')
+    head = imp['self']['e'][0]
+    hT = head['t']['name'] if head.get('k') == 'ref' and head['t'].get('k') == 'param' else None
+    E = pathsem.analyse(prog, f)
+    rets = [p for p in E.paths if p.ended == 'return']
+    rep = set()
+
+    def once(rule, k, ln, msg):
+        if k not in rep:
+            rep.add(k)
+            r.viol(rule, key + '/' + k, f.loc(ln), msg)
+    if E.truncated or not rets:
+        once('S1', 'not-analysable', None, 'path enumeration cut off')
         return r
-    sb, tt, ft = sw
-    r.inst(key + ': has_run switch at bb%d' % sb)
-    joins = [(b, t) for b, t in body.calls(is_join)]
-    truns = [(b, t) for b, t in body.calls(is_task_run)]
-    tails = [(b, t) for b, t in body.calls(lambda c: c.get('trait') == STAGE_T and c['name'] == 'run')]
-    true_reach = body.reachable(tt, cut_edges=[])
-    false_reach = body.reachable(ft) if ft is not None else set()
-    # already-ran edge
-    for b, t in joins + truns:
-        if b in true_reach and b not in false_reach:
-            r.viol('S1', key + '/runs-again', f.loc(t['ln']), 'task is run (or forked) on the path where has_run.0 is true')
-    tt_tails = [(b, t) for b, t in tails if b in true_reach and b not in false_reach]
-    if len(tt_tails) != 1:
-        r.viol('S1', key + '/skip-path-tail', f.loc(), 'the already-ran path must call the rest of the stage exactly once (found %d)' % len(tt_tails))
-    for b, t in tt_tails:
-        names = [receiver_name(prog, body, a) for a in t['args']]
-        want = [None, 'world', 'borrowed_archetypes', 'resource_claims', 'has_run.1', None]
-        for i, w in enumerate(want):
-            if w and (i >= len(names) or names[i] != w):
-                r.viol('S1', key + '/skip-path-args/%d' % i, f.loc(t['ln']), 'already-ran path must pass %s unchanged to the rest of the stage (got %s)' % (w, names[i] if i < len(names) else None))
-    # not-yet-run edge
-    fj = [(b, t) for b, t in joins if b in false_reach]
-    if len(fj) != 1:
-        r.viol('S1', key + '/join-count', f.loc(), 'the not-yet-run path must fork exactly once with rayon::join (found %d)' % len(fj))
-        return r
-    jb, jt = fj[0]
-    if not body.must_pass(ft, [jb], body.return_blocks()):
-        r.viol('S1', key + '/join-skippable', f.loc(jt['ln']), 'a not-yet-run path returns without running the task')
-    ca, ca_agg = closure_of(prog, body, jt['args'][0])
-    cb, cb_agg = closure_of(prog, body, jt['args'][1])
-    if ca is None or cb is None:
-        r.viol('S1', key + '/join-args', f.loc(jt['ln']), 'rayon::join arguments are not closures defined in place')
-        return r
-    # which closure runs the task
-    runs_a = calls_named(ca, is_task_run)
-    runs_b = calls_named(cb, is_task_run)
-    if len(runs_a) + len(runs_b) != 1:
-        r.viol('S1', key + '/task-run-count', f.loc(jt['ln']), 'the fork must run the task exactly once (found %d Task::run calls)' % (len(runs_a) + len(runs_b)))
-        return r
-    task_c, rest_c, rest_agg = (cb, ca, ca_agg) if runs_b else (ca, cb, cb_agg)
-    r.inst(key + ': task closure %s, rest closure %s' % (task_c.dp.rsplit('::', 1)[-1], rest_c.dp.rsplit('::', 1)[-1]))
-    # task closure runs self.0
-    others = [t for b, t in task_c.body.calls() if not is_task_run(t['f']) and t['f'].get('path') not in DEREF_CALLS]
-    if others:
-        r.viol('S1', key + '/task-closure-extra', task_c.loc(), 'the task closure does more than run the task')
-    # rest closure: accumulate claims, merge resource claims, tail run with those
-    rb = rest_c.body
-    acc = [(b, t) for b, t in rb.calls(lambda c: c['name'] == 'query_archetype_identifiers_unchecked')]
-    mrg = [(b, t) for b, t in rb.calls(lambda c: c['name'] in ('merge_unchecked', 'try_merge') and 'claim' in c['path'])]
-    rtails = [(b, t) for b, t in rb.calls(lambda c: c.get('trait') == STAGE_T and c['name'] == 'run')]
-    if len(rtails) != 1:
-        r.viol('S1', key + '/rest-tail', rest_c.loc(), 'the rest-of-stage closure must continue the stage exactly once')
-        return r
-    tb, ttm = rtails[0]
-    if not (ttm['f']['args'] and is_param(ttm['f']['args'][0], tail)):
-        r.viol('S1', key + '/rest-tail-self', rest_c.loc(ttm['ln']), 'the rest of the stage must be the tail stage U')
-    if len(acc) != 1 or not rb.dominates(acc[0][0], tb):
-        r.viol('S4', key + '/claims-not-recorded', rest_c.loc(), 'the running task\'s archetype claims are not recorded (on every path) before the rest of the stage / the add-ons are started')
-    else:
-        g = acc[0][1]['f']['args']
-        # the T whose claims are recorded is the head task T
-        head = imp['self']['e'][0]
-        hT = head['t']['name'] if head.get('k') == 'ref' and head['t'].get('k') == 'param' else None
-        if not any(is_param(x, hT) for x in g):
-            r.viol('S4', key + '/claims-of-wrong-task', rest_c.loc(acc[0][1]['ln']), 'claims are recorded for a different task type than the one being run')
-        # map argument = upvar k; tail must receive same upvar k
-        mk = upvar_index_of(rb, acc[0][1]['args'][1])
-        tk = upvar_index_of(rb, ttm['args'][2]) if len(ttm['args']) > 2 else None
-        if mk is None or mk != tk:
-            r.viol('S4', key + '/claims-map-not-forwarded', rest_c.loc(ttm['ln']), 'the map handed to the rest of the stage is not the one the task\'s claims were recorded in')
-    if len(mrg) != 1 or not rb.dominates(mrg[0][0], tb):
-        r.viol('S3', key + '/resource-claims-not-recorded', rest_c.loc(),
-               'the running task\'s resource claims are not merged into the stage\'s resource claims on every path before the rest of the stage / the add-ons are started')
-    else:
-        mb, mt = mrg[0]
-        # merged value is what the tail receives (unique definition chain)
-        a = ttm['args'][3] if len(ttm['args']) > 3 else None
-        src = access_of_local(rb, op_local(a)) if a is not None and op_local(a) is not None else None
-        if src is None or src.root != mt['dest']['l']:
-            r.viol('S3', key + '/resource-claims-not-forwarded', rest_c.loc(ttm['ln']), 'the rest of the stage does not receive the merged resource claims')
-        # merge combines the incoming claims (upvar) with this task's Resources::claims()
-        srcs = set()
-        for x in mt['args']:
-            l = op_local(x)
-            if l is None:
+    S = pathsem.strip_refs
+    body = f.body
+    P = {n: ('p', body.arg_local(n), n) for n in ('world', 'borrowed_archetypes', 'resource_claims', 'has_run', 'next_stage') if body.arg_local(n)}
+    hr0, hr1 = ('f', P.get('has_run'), 0, 'tuple'), ('f', P.get('has_run'), 1, 'tuple')
+
+    def is_tail_run(e):
+        return e['f'].get('trait') == STAGE_T and e['name'] == 'run'
+    n_skip = n_fork = 0
+    for p in rets:
+        tests = [v for a_, v in p.conds if S(a_) == hr0]
+        joins = p.calls(ev_is_join)
+        truns = p.calls(ev_is_task_run)
+        tails = p.calls(is_tail_run)
+        if not tests:
+            once('S1', 'no-has-run-test', None, 'Stage::run does not branch on has_run.0: a task started early would run twice')
+            continue
+        if tests[0] is True:
+            n_skip += 1
+            if joins or truns:
+                once('S1', 'runs-again', (joins + truns)[0]['ln'], 'task is run (or forked) on the path where has_run.0 is true')
+            if len(tails) != 1:
+                once('S1', 'skip-path-tail', None, 'the already-ran path must call the rest of the stage exactly once (found %d)' % len(tails))
                 continue
-            a2 = normalize_access(access_of_local(rb, l))
-            d = single_def(rb, a2.root)
-            if a2.root == 1:
-                srcs.add('incoming')
-            elif d and d[0] == 'call' and d[2]['f']['name'] == 'claims':
-                srcs.add('task')
-        if srcs != {'incoming', 'task'}:
-            r.viol('S3', key + '/resource-merge-operands', rest_c.loc(mt['ln']), 'resource claim merge must combine the incoming stage claims with this task\'s resource claims (got %s)' % sorted(srcs))
-    # has_run.1 forwarded
-    hk = upvar_index_of(rb, ttm['args'][4]) if len(ttm['args']) > 4 else None
-    if hk is not None and rest_agg is not None:
-        nm = receiver_name(prog, body, rest_agg['ops'][hk]) if hk < len(rest_agg['ops']) else None
-        if nm != 'has_run.1':
-            r.viol('S1', key + '/has-run-tail', rest_c.loc(ttm['ln']), 'rest of the stage must receive has_run.1 (got %s)' % nm)
+            t = tails[0]
+            want = [None, P.get('world'), P.get('borrowed_archetypes'), P.get('resource_claims'), hr1, None]
+            for i, w in enumerate(want):
+                if w and (i >= len(t['vals']) or S(t['vals'][i]) != w):
+                    once('S1', 'skip-path-args/%d' % i, t['ln'], 'already-ran path must pass %s unchanged to the rest of the stage (got %s)' % (pathsem.tstr(w), pathsem.tstr(t['vals'][i]) if i < len(t['vals']) else None))
+            continue
+        n_fork += 1
+        if len(joins) != 1:
+            once('S1', 'join-skippable' if not joins else 'join-count', None, 'a not-yet-run path %s' % ('returns without forking the task against the rest of its stage (the task is serialised or not run)' if not joins else 'forks %d times' % len(joins)))
+            continue
+        j = joins[0]
+        marks = {m['k']: m['i'] for m in p.events if m['k'] in ('join_begin', 'join_mid', 'join_end') and m.get('call') == j['i']}
+        if set(marks) != {'join_begin', 'join_mid', 'join_end'}:
+            once('S1', 'join-args', j['ln'], 'cannot see both sides of the rayon::join')
+            continue
+        side = lambda e: 'a' if marks['join_begin'] < e['i'] < marks['join_mid'] else ('b' if marks['join_mid'] < e['i'] < marks['join_end'] else None)
+        if len(truns) != 1 or side(truns[0]) is None:
+            once('S1', 'task-run-count', j['ln'], 'the fork must run the task exactly once, as one side of the join (found %d Task::run calls)' % len(truns))
+            continue
+        ts = side(truns[0])
+        rs = 'b' if ts == 'a' else 'a'
+        extra = [e for e in p.calls() if side(e) == ts and e is not truns[0] and e['path'] not in DEREF_CALLS and e['name'] not in ('deref', 'deref_mut', 'get')]
+        if extra:
+            once('S1', 'task-closure-extra', extra[0]['ln'], 'the task side of the fork does more than run the task (%s)' % extra[0]['name'])
+        rtails = [e for e in tails if side(e) == rs]
+        if len(rtails) != 1 or len(tails) != 1:
+            once('S1', 'rest-tail', None, 'the rest of the stage must be continued exactly once, on the other side of the fork (found %d)' % len(tails))
+            continue
+        t = rtails[0]
+        ga = [a_ for a_ in t['f'].get('args', []) if a_.get('k') != 'region']
+        if not (ga and is_param(ga[0], tail)):
+            once('S1', 'rest-tail-self', t['ln'], 'the rest of the stage must be the tail stage U')
+        acc = [e for e in p.calls(lambda e: e['name'] == 'query_archetype_identifiers_unchecked') if e['i'] < t['i']]
+        if len(acc) != 1:
+            once('S4', 'claims-not-recorded', None, 'the running task\'s archetype claims are not recorded (on every path) before the rest of the stage / the add-ons are started')
+        else:
+            g = [a_ for a_ in acc[0]['f'].get('args', []) if a_.get('k') != 'region']
+            if not any(is_param(x, hT) for x in g):
+                once('S4', 'claims-of-wrong-task', acc[0]['ln'], 'claims are recorded for a different task type than the one being run')
+            m_ = S(acc[0]['vals'][1]) if len(acc[0]['vals']) > 1 else None
+            if m_ != P.get('borrowed_archetypes') or len(t['vals']) < 3 or S(t['vals'][2]) != m_:
+                once('S4', 'claims-map-not-forwarded', t['ln'], 'the map handed to the rest of the stage is not the one the task\'s claims were recorded in')
+        mrg = [e for e in p.calls(lambda e: e['name'] in ('merge_unchecked', 'try_merge') and 'claim' in e['path']) if e['i'] < t['i']]
+        good = None
+        for e in mrg:
+            srcs = set()
+            for v in e['vals']:
+                v = S(v)
+                if v == P.get('resource_claims'):
+                    srcs.add('incoming')
+                if isinstance(v, tuple) and v[0] == 'call' and v[1].endswith('::claims'):
+                    srcs.add('task')
+            if srcs == {'incoming', 'task'}:
+                good = e
+        if not mrg:
+            once('S3', 'resource-claims-not-recorded', None, 'the running task\'s resource claims are not merged into the stage\'s resource claims on every path before the rest of the stage / the add-ons are started')
+        elif good is None:
+            once('S3', 'resource-merge-operands', mrg[0]['ln'], 'resource claim merge must combine the incoming stage claims with this task\'s resource claims')
+        else:
+            merged = good['ret'] if good['name'] == 'merge_unchecked' else ('f', ('down', good['ret'], 'Some', 1), 0, 'core::option::Option')
+            if len(t['vals']) < 4 or S(t['vals'][3]) != merged:
+                once('S3', 'resource-claims-not-forwarded', t['ln'], 'the rest of the stage does not receive the merged resource claims')
+        if len(t['vals']) > 4 and S(t['vals'][4]) != hr1:
+            once('S1', 'has-run-tail', t['ln'], 'rest of the stage must receive has_run.1 (got %s)' % pathsem.tstr(t['vals'][4]))
+    r.inst(key + ': %d already-ran path(s)' % n_skip)
+    r.inst(key + ': %d forking path(s)' % n_fork)
+    if not n_skip or not n_fork:
+        once('S1', 'no-has-run-test', None, 'expected both an already-ran path and a forking path (found %d / %d)' % (n_skip, n_fork))
     return r
 
 
